@@ -277,9 +277,9 @@ common::register! {
     q_header_0 = header_helper::<_, 0> => 2,
     q_header_242 = header_helper::<_, 242> => 2,
     q_padding = padding_helper => 2,
-    q_check_192_4 = check_helper::<_, 192, 4, 32> => 2,
-    q_check_242_12 = check_helper::<_, 242, 12, 32> => 2,
-    q_check_255_28 = check_helper::<_, 255, 28, 48> => 2,
+    q_check_192_4 = check_helper::<_, 192, 4, 300> => 2,
+    q_check_242_12 = check_helper::<_, 242, 12, 300> => 2,
+    q_check_255_28 = check_helper::<_, 255, 28, 300> => 2,
     q_custom_242_12 = custom_roundtrip::<_, 242, 12> => 2,
     q_custom_0_4 = custom_roundtrip::<_, 0, 4> => 2,
     q_custom_255_28 = custom_roundtrip::<_, 255, 28> => 2,
@@ -288,8 +288,8 @@ common::register! {
     q_in_compound = in_compound::<_, 242, 12> => 4,
     t_header_192 = header_helper::<_, 192> => 2,
     t_header_255 = header_helper::<_, 255> => 2,
-    t_check_0_8 = check_helper::<_, 0, 8, 128> => 2,
-    t_check_242_12 = check_helper::<_, 242, 12, 256> => 2,
+    t_check_0_8 = check_helper::<_, 0, 8, 1100> => 2,
+    t_check_242_12 = check_helper::<_, 242, 12, 1100> => 2,
     t_custom_192_8 = custom_roundtrip::<_, 192, 8> => 2,
     t_unknown_builder_199 = unknown_builder::<_, 199> => 2,
     t_in_compound_255_28 = in_compound::<_, 255, 28> => 4,
